@@ -6,7 +6,7 @@
 
    Modelled code: ConcatItems, concatMaps, concatSliceValue, toSliceValue, the
    [concatFuncs] registry restricted to string / useLast kinds (messages: Model/ConcatMsg.v). *)
-From Eino Require Import Base.Util.
+From Eino Require Import Base.Util Model.ConcatTable.
 
 Inductive cval : Type :=
 | CStr (s : string)                       (* Go string: registered, concatStrings *)
@@ -37,6 +37,29 @@ Definition dyn_ty (v : cval) : option cty :=
   | CNil => None
   | COther t _ => Some (TOther t)
   | CMap mt _ => Some (TMap mt)
+  end.
+
+(* Go type name of the numeric kinds the harness uses (k >= 3 is float64) *)
+Definition kind_name (k : N) : string :=
+  if N.eqb k 0 then "int"%string else if N.eqb k 1 then "int64"%string
+  else if N.eqb k 2 then "bool"%string else "float64"%string.
+
+(* GetConcatFunc: the function registered for a dynamic type (Model/ConcatTable.v) *)
+Definition registered (t : cty) : option cfun :=
+  match t with
+  | TStr => alist_get "string"%string table
+  | TNum k => alist_get (kind_name k) table
+  | TOther _ => None
+  | TMap _ => None
+  end.
+
+(* the zero value of a non-map type *)
+Definition zero_of (t : cty) : cval :=
+  match t with
+  | TStr => CStr EmptyString
+  | TNum k => CNum k 0
+  | TOther tag => COther tag 0
+  | TMap _ => CNil
   end.
 
 Definition is_nil (v : cval) : bool := match v with CNil => true | _ => false end.
@@ -97,11 +120,11 @@ Section WithFuel.
       match vs with
       | [v] => Ok v                                           (* val.Len() == 1 *)
       | _ =>
-        match t with
-        | TStr => Ok (CStr (concat_strings (strs vs)))
-        | TNum _ => Ok (last vs CNil)
-        | TOther tag => single_nonzero (COther tag 0) vs
-        | TMap _ => Err 0%N
+        match registered t with                               (* GetConcatFunc(elmType) *)
+        | Some FConcatStrings => Ok (CStr (concat_strings (strs vs)))
+        | Some FUseLast => Ok (last vs CNil)
+        | Some FUseFirst => Ok (hd CNil vs)
+        | None => single_nonzero (zero_of t) vs               (* unregistered type *)
         end
       end
     end.
